@@ -33,10 +33,37 @@ GEOM = 'gym_gridverse/geometry.py'
 GRID = 'gym_gridverse/grid.py'
 
 
+def _fuse(m: FnModel, lc: ast.ListComp, depth: int = 3) -> ast.ListComp:
+    """`[e for t in L if c2]` with `L = [t1 for t1 in IT if c1]` (a filtered copy, never
+    updated in place) is `[e for t in IT if c1[t1 := t] and c2]`"""
+    import copy
+    from ..inline import _Rename
+    if depth <= 0 or len(lc.generators) != 1:
+        return lc
+    g = lc.generators[0]
+    if not (isinstance(g.iter, ast.Name) and isinstance(g.target, ast.Name)):
+        return lc
+    d = m.walk.single_def(g.iter.id)
+    if d is None or d[0] != 'value' or not isinstance(d[1], ast.ListComp):
+        return lc
+    inner = _fuse(m, d[1], depth - 1)
+    if len(inner.generators) != 1 or not isinstance(inner.generators[0].target, ast.Name) or \
+            src(inner.elt) != inner.generators[0].target.id:
+        return lc
+    ig = inner.generators[0]
+    ren = _Rename({ig.target.id: g.target.id})
+    conds = [ren.visit(copy.deepcopy(c)) for c in ig.ifs] + list(g.ifs)
+    out = ast.ListComp(lc.elt, [ast.comprehension(g.target, ig.iter, conds, 0)])
+    return ast.copy_location(out, lc)
+
+
 def _listcomp_def(m: FnModel, name: str):
     d = m.walk.single_def(name)
     if d is None or d[0] != 'value' or not isinstance(d[1], ast.ListComp):
         return None
+    fused = _fuse(m, d[1])
+    if fused is not d[1]:
+        d = (d[0], fused) + tuple(d[2:])
     return d
 
 
